@@ -240,3 +240,9 @@ func SpawnAsThread(on bool) {}
 func JoinThread() bool      { return false }
 
 func InstallSyncMap() {}
+
+// MaxAlloc: size of the largest single byte-buffer allocation so far; reset=true starts a new measurement.
+func MaxAlloc(reset bool) int { return 0 }
+
+// OverrideIfPresent: like Override, for a library function the current tree may not call at all.
+func OverrideIfPresent(name string, f interface{}) {}
